@@ -453,22 +453,34 @@ class Lib:
             if c.ndim == 1:
                 parts.append((c.reader(), 1, 1))
             elif c.ndim == 2:
-                parts.append((c.reader(), A.conc_dim(c.shape[1]), 2))
+                parts.append((c.reader(), c.shape[1], 2))     # the width may be symbolic
             else:
                 raise EngineError("column_stack rank")
-        width = sum(p[1] for p in parts)
+        width = 0
+        offs = []
+        for p in parts:
+            offs.append(width)
+            width = A.simp(sv.add(width, p[1]))
         dt = A.promote(*[c.dtype for c in cols])
 
         def fn(idx):
             j = idx[1]
-            if not is_conc(j):
-                raise EngineError("symbolic column index into column_stack")
-            off = 0
-            for r, w, nd in parts:
-                if j < off + w:
-                    return A._cast(r((idx[0],) if nd == 1 else (idx[0], j - off)), dt)
-                off += w
-            raise EngineError("column index")
+            if is_conc(j) and all(is_conc(o) for o in offs) and all(is_conc(p[1]) for p in parts):
+                for (r, w, nd), off in zip(parts, offs):
+                    if j < off + w:
+                        return A._cast(r((idx[0],) if nd == 1 else (idx[0], j - off)), dt)
+                raise EngineError("column index")
+            # symbolic column index / widths: select the block by comparison with the offsets (last block as default)
+            acc = None
+            for (r, w, nd), off in reversed(list(zip(parts, offs))):
+                def val(r=r, nd=nd, off=off):
+                    return A._cast(r((idx[0],) if nd == 1 else (idx[0], A.simp(sv.sub(j, off)))), dt)
+                if acc is None:
+                    acc = val
+                else:
+                    nxt = acc
+                    acc = (lambda val=val, nxt=nxt, off=off, w=w: ite(sv.cmp("<", j, A.simp(sv.add(off, w))), val, nxt))
+            return acc()
         return A.new_arr((n, width), fn, dt)
 
     def np_where(self, interp, c, a=None, b=None):
